@@ -276,8 +276,29 @@ func main() {
 	o := &out{}
 	o.raw("(* GENERATED by /verif/go/cmd/gen from the current source of trzsz-go. Do not edit. *)\n")
 	o.raw("From Coq Require Import List NArith ZArith.\nImport ListNotations.\nOpen Scope N_scope.\n\n")
-	genEscape(s, o)
-	genRest(s, o)
+	var names []string
+	for n := range constGens {
+		names = append(names, n)
+	}
+	sort.Strings(names)
+	for _, n := range names {
+		o.raw("(* ---- %s ---- *)\n", n)
+		constGens[n](s, o)
+		o.raw("\n")
+	}
 	writeIfChanged(filepath.Join(os.Args[2], "Consts.v"), o.b.String())
-	genSkeletons(s, os.Args[2])
+	names = nil
+	for n := range fileGens {
+		names = append(names, n)
+	}
+	sort.Strings(names)
+	for _, n := range names {
+		writeIfChanged(filepath.Join(os.Args[2], n), fileGens[n](s))
+	}
 }
+
+// constGens: section name -> extractor appending definitions to Gen/Consts.v (run in name order).
+// fileGens: file name (e.g. "Skel_relay.v") -> generator of a whole Gen file.
+// Each extractor lives in its own file and registers itself in init().
+var constGens = map[string]func(*src, *out){}
+var fileGens = map[string]func(*src) string{}
